@@ -260,7 +260,8 @@ func c14XElem(r *rand.Rand, o C14XMLOpts, depth int, name string, tags map[strin
 			}
 			if o.ProcInst && r.IntN(10) == 0 && !usedK["<pi>"] {
 				usedK["<pi>"] = true
-				n.Kids = append(n.Kids, &ref.XNode{Kind: ref.XProcInst, Name: "target", Text: "some data"})
+				// (targets that begin with a character of the default prefix `+p_` are targets like any other)
+				n.Kids = append(n.Kids, &ref.XNode{Kind: ref.XProcInst, Name: []string{"target", "php", "pipeline", "_dbg", "plugin", "p", "xml-stylesheet", "pp_x"}[r.IntN(8)], Text: "some data"})
 				tags["inner_procinst"] = true
 			}
 		}
